@@ -1247,6 +1247,11 @@ impl super::DiskFS for Disk {
             error!("empty data is not allowed for ProDOS file images");
             return Err(Box::new(Error::EndOfData));
         }
+        // a ProDOS file has at most 128 index blocks of 256 blocks each and a 24 bit EOF
+        if fimg.end() > 128*256 || fimg.get_eof() > 0xffffff {
+            error!("file image exceeds the ProDOS maximum file size");
+            return Err(Box::new(Error::Range));
+        }
         match self.prepare_to_write(&fimg.full_path) {
             Ok((name,dir_key_block,loc,new_key_block)) => {
                 // nothing is written unless there is room for all the data and index blocks
